@@ -576,7 +576,7 @@ def read_pandas(
                     parts.append(split_comment[0].strip().encode())
             else:
                 parts.append(part)
-            if len(parts) > need:
+            if len(parts) > max(lastskiprow + need, firstrow + need):
                 break
     else:
         parts = b_sample.split(
